@@ -39,5 +39,8 @@ def jobs(tier):
         ]
     out += matrix_jobs('C03', 'm1', tier)
     out += matrix_jobs('C03', 'm2', tier)
+    out += mk('C03', 'deep4/await', S.deep4('await'))
+    out += mk('C03', 'deep4/ff', S.deep4('ff'))
+    out += mk('C03', 'deep4/ff/wild_raise', S.deep4('ff', wild_raise=True))
     out += matrix_jobs('C03', 'm3', tier)
     return flat(out)
